@@ -70,7 +70,7 @@ func init() {
 	register(&Prop{
 		ID:         "C01",
 		Title:      "Single-item operations behave as a sequential key-to-item map",
-		Decided:    "the representation invariant I1 (SortedKeys is exactly the sorted key set of Data) is preserved by every mutator on every path, and every access to Data uses the table's own key derivation: (R1) only core functions write Table.Data/SortedKeys after construction and each of them is a checked mutator; (R2) path-case analysis of each mutator: net change of Data[k] (absent→present, present→absent, overwrite) is matched by exactly the corresponding insertion (followed by a sort) or binary-search removal of k in SortedKeys, presence being established by a comma-ok lookup of the same key before the change; reset resets both; (R3) the key operand of every Data lookup/update/delete derives from keySchema.GetKey(t.KeySchema, t.AttributesDef, ·) of the same table (or, on the search path, from SortedKeys/index entries); (R4) the map stored under a key is a fresh copy (or the map already stored there), never a caller's map; (R5) UpdateItem on an absent key starts from a copy of the request key; (R7) GetItem's output derives from Data[key] with key derived from the request key, through conversion/copy only. By induction over histories I1 holds in every reachable state, which is what makes GetItem/Scan/ItemCount agree; (R8) no function on the key derivation path calls a text or number transformation (strings.*, strconv.*, bytes.*, math.*, regexp) other than a join: distinct key values never fold into one key string; (R9) where an update builds its working item, 'start from a copy of the request's key' is selected by the presence flag of the Data lookup under the request's key and by nothing else – a flag overwritten by another verdict (the condition's) creates items without their key attributes; (R10) 'behaves as a key→item map' includes that a write which reports an error leaves the map as it was: no failure after the first state write in core, the interpreter commits only after success, attribute values are never modified in place (= C08.R1, R2, R5); (R11) the item stored under a key changes only through operations on that key: every reference-typed component the adapters store or hand out is owned by the result (= C14.R1), so re-using a buffer for a write to another key cannot rewrite this one; (R12) the table has no state beyond the confirmed fields – a field added later is classified (never read / derived and kept coherent by every writer of its sources / not decided); (R13) removals made by an update are recorded under the resolved attribute name (= C07.R16).",
+		Decided:    "the representation invariant I1 (SortedKeys is exactly the sorted key set of Data) is preserved by every mutator on every path, and every access to Data uses the table's own key derivation: (R1) only core functions write Table.Data/SortedKeys after construction and each of them is a checked mutator; (R2) path-case analysis of each mutator: net change of Data[k] (absent→present, present→absent, overwrite) is matched by exactly the corresponding insertion (followed by a sort) or binary-search removal of k in SortedKeys, presence being established by a comma-ok lookup of the same key before the change; reset resets both; (R3) the key operand of every Data lookup/update/delete derives from keySchema.GetKey(t.KeySchema, t.AttributesDef, ·) of the same table (or, on the search path, from SortedKeys/index entries); (R4) the map stored under a key is a fresh copy (or the map already stored there), never a caller's map; (R5) UpdateItem on an absent key starts from a copy of the request key; (R7) GetItem's output derives from Data[key] with key derived from the request key, through conversion/copy only. By induction over histories I1 holds in every reachable state, which is what makes GetItem/Scan/ItemCount agree; (R8) no function on the key derivation path calls a text or number transformation (strings.*, strconv.*, bytes.*, math.*, regexp) other than a join: distinct key values never fold into one key string; (R9) where an update builds its working item, 'start from a copy of the request's key' is selected by the presence flag of the Data lookup under the request's key and by nothing else – a flag overwritten by another verdict (the condition's) creates items without their key attributes; (R10) 'behaves as a key→item map' includes that a write which reports an error leaves the map as it was: no failure after the first state write in core, the interpreter commits only after success, attribute values are never modified in place (= C08.R1, R2, R5); (R11) the item stored under a key changes only through operations on that key: every reference-typed component the adapters store or hand out is owned by the result (= C14.R1), so re-using a buffer for a write to another key cannot rewrite this one; (R12) the table has no state beyond the confirmed fields – a field added later is classified (never read / derived and kept coherent by every writer of its sources / not decided); (R13) removals made by an update are recorded under the resolved attribute name (= C07.R16); (R14) attribute definitions of an existing table are neither retyped nor removed (= C13.R7).",
 		NotDecided: "contents of items after an update (C07), injectivity of the key encoding (C13), value-level equality of returned items (C10), ownership below the top-level map (C14).",
 		Assumes:    []string{"I1 is assumed at function entry when discharging a mutator (induction hypothesis); the branch 'binary search did not find a key that a lookup just found' is infeasible under I1 and dropped"},
 		Rules: []RuleDef{
@@ -264,6 +264,7 @@ func init() {
 			{ID: "R11", Desc: "what is stored under a key, and what a read hands out, shares no memory with the caller or with another key's item (= C14.R1)", Run: aliasRule("R11", c14R1, nil)},
 			{ID: "R12", Desc: "the state of a table is the confirmed set of fields: a new field is new state (cache, memo, snapshot) – derived state must be rewritten by every writer of what it derives from (T-FIELD closure)", Run: func(e *Engine) { stateModelClosed(e, "R12", func(k string) bool { return k == "core.Table" }) }},
 			{ID: "R13", Desc: "what an UpdateItem removes is removed from the stored item: removals are recorded under the resolved attribute name (= C07.R16)", Run: aliasRule("R13", c07R16, nil)},
+			{ID: "R14", Desc: "the declared types of the key attributes stay with the table: no operation on an existing table retypes or removes an attribute definition (= C13.R7) – otherwise stored items become unreachable by their keys", Run: aliasRule("R14", c13R7, nil)},
 		},
 	})
 }
